@@ -236,6 +236,32 @@ func genWriters(root *pkgSrc) {
 		}
 	}
 	fmt.Fprintf(&b, "def stdioTwoWrites : Bool := %s\n", leanBool(two))
+	// every function of the package that writes an event on a GET stream's connection (conn.sseResponder.send…):
+	// all of them must be in the writer table above
+	var sites []string
+	for _, file := range root.sortedFiles() {
+		for _, d := range root.files[file].Decls {
+			fd, ok := d.(*ast.FuncDecl)
+			if !ok || fd.Body == nil {
+				continue
+			}
+			found := false
+			ast.Inspect(fd.Body, func(n ast.Node) bool {
+				if c, ok := n.(*ast.CallExpr); ok {
+					t := root.text(c.Fun)
+					if strings.HasSuffix(t, ".sseResponder.sendNotification") || strings.HasSuffix(t, ".sseResponder.sendRequest") || strings.HasSuffix(t, ".sseResponder.sendSSEMessage") {
+						found = true
+					}
+				}
+				return true
+			})
+			if found {
+				sites = append(sites, leanStr(funcName(fd)))
+			}
+		}
+	}
+	sort.Strings(sites)
+	fmt.Fprintf(&b, "/-- functions that write an event through a GET connection's responder -/\ndef getStreamWriteSites : List String := [%s]\n", strings.Join(sites, ", "))
 	b.WriteString("end Mcp.Gen\n")
 	writeIfChanged("Writers.lean", b.String())
 }
